@@ -21,6 +21,7 @@ var concSpecs = []concSpec{
 	{file: "GenConcV2Prio.v", part1: "GenV2Prio.v", dir: "v2/priority", roots: []string{"Discipline.main"}},
 	{file: "GenConcLimit.v", part1: "GenLimit.v", dir: "v2/limit", roots: []string{"Discipline.main"}},
 	{file: "GenConcJoinV2.v", part1: "GenJoinV2.v", dir: "v2/join", roots: []string{"Discipline.main"}},
+	{file: "GenConcUnite.v", part1: "GenJoinUniteV2.v", dir: "v2/join/unite", roots: []string{"Discipline.main"}},
 }
 
 type concFn struct {
